@@ -46,13 +46,14 @@ void Value::verify_sig(bool compact) {
     if (type != T_DATA) abort("invalid type (must be data)");
     std::vector<std::vector<uint8_t>> args;
     if (!extract_values(args) || args.size() != 3) abort("invalid input (needs a sighash, a pubkey, and a signature)");
-    if (args[0].size() != 32 && args[0].size() != 64) abort("invalid input (sighash must be 32 or 64 bytes)");
+    if (args[0].size() != 32) abort("invalid input (sighash must be 32 bytes)");
     const uint256 sighash(args[0]);
 
     if (args[1].size() == 32) {
         // new style pubkey, so use schnorr validation
         XOnlyPubKey pubkey((uint256(args[1])));
         if (!pubkey.IsFullyValid()) abort("invalid x only pubkey");
+        if (args[2].size() != 64) abort("invalid input (schnorr signature must be 64 bytes)");
         int64 = pubkey.VerifySchnorr(sighash, args[2]);
         if (int64 == 0) {
             uint256 sh2;
